@@ -15,7 +15,7 @@ CLASSES = ["Drift", "Quadrupole", "Dipole", "RBend", "Solenoid", "HorizontalCorr
            "TransverseDeflectingCavity", "Marker", "BPM", "Aperture", "CustomTransferMap", "SpaceChargeKick"]
 SPECIAL = {
     "length": [0.0, 0.3, 1.0], "k1": [0.0, 2.0, -3.0], "angle": [0.0, 0.05, -0.1], "tilt": [0.0, 0.2, -0.4], "k": [0.0, 1.0, -0.5],
-    "voltage": [0.0, 2e6, -1e6], "phase": [0.0, 30.0, 200.0], "frequency": [1.3e9, 2.998e9], "misalignment": [[0.0, 0.0], [1e-3, -2e-3]],
+    "voltage": [0.0, 2e6, -1e6, -3e6, 5e6], "phase": [0.0, 30.0, 200.0, 180.0], "frequency": [1.3e9, 2.998e9], "misalignment": [[0.0, 0.0], [1e-3, -2e-3]],
     "dipole_e1": [0.0, 0.05], "dipole_e2": [0.0, -0.05], "rbend_e1": [0.0, 0.05], "rbend_e2": [0.0, -0.05], "gap": [0.0, 0.02],
     "fringe_integral": [0.0, 0.5], "effect_length": [0.1, 0.4], "gap_exit": [0.0, 0.03], "fringe_integral_exit": [0.0, 0.4],
 }
@@ -141,6 +141,18 @@ TRAIL_OUT = {"particles": 2, "energy": 0, "particle_charges": 1, "survival_proba
 LAST = {}      # structured description of the last non-ok comparison: {"name": observable, "idx": batch index}
 
 
+def _energy_agrees(out, ref, idx):
+    """does the reference energy of batch entry idx equal the scalar run's?  (the listed cavity findings F1 / F5 concern tau and NaN
+    coordinates only: an entry whose ENERGY differs is a different defect)"""
+    try:
+        x = proj(out.energy, TRAIL_OUT["energy"], idx)
+        y = ref.energy
+        x, y = torch.broadcast_tensors(x, y)
+        return bool(torch.all((x - y).abs() <= 1e-10 * torch.maximum(x.abs(), y.abs()) + 1e-16))
+    except Exception:
+        return False
+
+
 def compare_case(spec, beam):
     """Returns (status, detail).  status in ok / skip / mismatch / nan_from_neighbour / shape / exception."""
     LAST.clear()
@@ -185,13 +197,13 @@ def compare_case(spec, beam):
                 return "shape", f"{n} entry {idx}: {tuple(x.shape)} vs scalar {tuple(y.shape)}"
             fin_y = torch.isfinite(y)
             if torch.any(fin_y & ~torch.isfinite(x)):
-                LAST.update(name=n, idx=list(idx))
+                LAST.update(name=n, idx=list(idx), energy_ok=_energy_agrees(out, ref, idx))
                 return "nan_from_neighbour", f"{n} entry {idx} is finite alone but NaN/inf in the batch"
             m = fin_y & torch.isfinite(x)
             d = (x - y).abs()[m]
             tol = (1e-10 * torch.maximum(x.abs(), y.abs()) + 1e-16)[m]
             if d.numel() and torch.any(d > tol):
-                LAST.update(name=n, idx=list(idx))
+                LAST.update(name=n, idx=list(idx), energy_ok=_energy_agrees(out, ref, idx))
                 return "mismatch", f"{n} entry {idx}: max |batch - scalar| = {float(d.max()):.3e}"
     return "ok", ""
 
@@ -289,10 +301,26 @@ def classify(run, spec, beam, status, detail):
             and name in ("particles", "_mu", "_cov", None):
         run.known("Dipole/RBend with a vectorised length mixing zero and non-zero entries: the zero-length entry is tracked differently than alone (whole-tensor branch `torch.any(self.length != 0.0)`) [F4]")
         return True
-    if sig_F5(spec, beam) and status in ("mismatch", "nan_from_neighbour") and name in ("particles", "_mu", "_cov", None):
+    def f5_entry():
+        import math
+        if idx is None:
+            return True
+        for s_ in elems:
+            if s_["cls"] == "Cavity":
+                try:
+                    V = float(entry_value(s_["kw"].get("voltage", 0.0), 0, idx))
+                    ph = math.radians(float(entry_value(s_["kw"].get("phase", 0.0), 0, idx)))
+                    if V * math.cos(ph) <= 0:
+                        return True
+                except Exception:
+                    return True
+        return False
+    if sig_F5(spec, beam) and status in ("mismatch", "nan_from_neighbour") and name in ("particles", "_mu", "_cov", None) \
+            and f5_entry() and LAST.get("energy_ok", True):
         run.known("Cavity batch mixing accelerating and non-accelerating entries: the latter get NaN / wrong tau (whole-tensor branch `torch.any(delta_energy > 0)`) [F5]")
         return True
-    if sig_F1(spec) and status == "mismatch" and at_entry(("Cavity",), "voltage", lambda V: V == 0.0) and name in ("particles", "_mu", "_cov", None):
+    if sig_F1(spec) and status == "mismatch" and at_entry(("Cavity",), "voltage", lambda V: V == 0.0) and name in ("particles", "_mu", "_cov", None) \
+            and LAST.get("energy_ok", True):
         run.known("Segment containing a Cavity whose voltage batch mixes zero and non-zero entries: the zero-voltage entry is tracked with Cavity.track's second-order tau term in the batch but by its linear map alone (same root as F1: Cavity(voltage=0).track != its transfer_map) [F1]")
         return True
     if sig_F23(spec, beam) and status == "exception":
@@ -356,8 +384,42 @@ def main(tier, replay=None):
     site_problem = sites_obligation(run)
     n = 5000 if thorough else 260
     bad = []
-    for i in range(n):
+    # targeted: the element whose is_active / is_skippable flag a Segment consults carries strengths of MIXED SIGN (and an exact zero):
+    # a flag computed from the sign (voltage > 0) or from the whole batch decides differently for the batch than for an entry alone
+    STRENGTH = {"Cavity": ("voltage", [2e6, -2e6, 0.0]), "TransverseDeflectingCavity": ("voltage", [1e6, -1e6, 0.0]), "Quadrupole": ("k1", [2.0, -3.0, 0.0]),
+                "Solenoid": ("k", [0.8, -0.5, 0.0]), "HorizontalCorrector": ("angle", [1e-3, -2e-3, 0.0]), "VerticalCorrector": ("angle", [1e-3, -2e-3, 0.0]),
+                "Dipole": ("angle", [0.05, -0.02, 0.0]), "RBend": ("angle", [0.05, -0.02, 0.0])}
+    targeted = []
+    for cls, (key, vals) in STRENGTH.items():
+        for btype in (["particle"] if cls == "TransverseDeflectingCavity" else ["particle", "parameter"]):
+            vs = list(vals)
+            run.rng.shuffle(vs)
+            el = gen_vec_element(run.rng, cls, (), "cheetah")
+            el["kw"][key] = vs
+            if cls == "Cavity":
+                el["kw"]["phase"] = run.rng.choice([0.0, 180.0, 30.0])
+            d1, d2 = gen_vec_element(run.rng, "Drift", (), "cheetah"), gen_vec_element(run.rng, "Drift", (), "cheetah")
+            spec = {"cls": "Segment", "name": "s", "es": [d1, el, d2]}
+            for j, c in enumerate(spec["es"]):
+                c["name"] = f"e{j}"
+            targeted.append((spec, gen_vec_beam(run.rng, btype, (), 3), btype))
+    for i in range(n + len(targeted)):
         rng = run.rng
+        if i < len(targeted):
+            spec, beam, btype = targeted[i]
+            run.count("targeted_mixed_sign_" + spec["es"][1]["cls"])
+            try:
+                st, detail = compare_case(spec, beam)
+            except Exception as ex:
+                run.count("harness_exception_" + type(ex).__name__)
+                continue
+            if st == "skip":
+                run.count("skipped_" + detail.replace(" ", "_"))
+                continue
+            run.add_case([spec, beam], True)
+            if st != "ok" and not classify(run, spec, beam, st, detail):
+                bad.append({"spec": spec, "beam": beam, "status": st, "detail": detail})
+            continue
         seg = rng.random() < 0.25
         es = rng.choice(BATCH_SHAPES)
         bs = rng.choice(BATCH_SHAPES)
